@@ -8,6 +8,8 @@ use minidump_writer::verif_hooks::set_sync;
 use minidump_writer::FailSpotName;
 use std::sync::{Arc, Mutex};
 
+extern "C" fn noop_handler(_: i32) {}
+
 fn tgkill(pid: i32, tid: i32, sig: i32) -> bool {
     unsafe { libc::syscall(libc::SYS_tgkill, pid, tid, sig) == 0 }
 }
@@ -17,7 +19,10 @@ pub fn generate(seed: u64, tier: &str, out: &mut dyn std::io::Write) {
     let rtsig = libc::SIGRTMIN() + 1;
     for i in 0..n {
         let mut r = Rng::for_case(seed, 3, i);
-        let scen = *r.pick(&["ok", "destfail", "destfail", "destpanic", "badapp", "nostop", "ok-signals", "ok-signals", "destfail-signals", "stoptimeout", "stoptimeout-signals", "nostop-storm", "nostop-storm", "zombie", "zombie-signals", "slow-signals", "slow-signals"]);
+        // every scenario in turn (all of them in every run), the rest of the case drawn at random
+        let scens = ["ok", "destfail", "destfail", "destpanic", "badapp", "nostop", "ok-signals", "ok-signals", "destfail-signals", "stoptimeout", "stoptimeout-signals", "nostop-storm", "nostop-storm", "zombie", "zombie-signals", "slow-signals", "slow-signals", "slow-eintr", "slow-eintr"];
+        let scen = scens[(i as usize + seed as usize * 7) % scens.len()];
+        let _ = r.next();
         let mut nblock = r.range(0, 5) as usize;
         let zombie = scen.starts_with("zombie");
         if zombie {
@@ -34,10 +39,13 @@ pub fn generate(seed: u64, tier: &str, out: &mut dyn std::io::Write) {
         }
         // a thread that cannot act on signals for a while (parent of a vfork child): signals sent to it stay pending
         // until after the dumper has attached, so each of them is reported to the dumper, which must pass it on
+        // … and while the dumper waits for such a thread to reach its attach stop, signals whose handler does not
+        // restart system calls arrive at the dumping thread itself: the wait is interrupted (EINTR) again and again
+        let eintr = scen == "slow-eintr";
         let slow = scen == "slow-signals";
-        if slow {
+        if slow || eintr {
             args.push("-V".into());
-            args.push((*r.pick(&[10u64, 25])).to_string());
+            args.push((*r.pick(if eintr { &[20u64, 60] } else { &[10u64, 25] })).to_string());
         }
         let mut helper_idx: Option<usize> = None;
         if nblock >= 1 && r.chance(1, 3) {
@@ -175,10 +183,39 @@ pub fn generate(seed: u64, tier: &str, out: &mut dyn std::io::Write) {
                 }
             }));
         }
+        let pinger_stop = Arc::new(std::sync::atomic::AtomicBool::new(false));
+        let mut pinger = None;
+        if eintr {
+            unsafe {
+                let mut sa: libc::sigaction = std::mem::zeroed();
+                sa.sa_sigaction = noop_handler as usize;
+                sa.sa_flags = 0; // no SA_RESTART
+                libc::sigaction(libc::SIGUSR1, &sa, std::ptr::null_mut());
+            }
+            let stop = pinger_stop.clone();
+            let period = *r.pick(&[200u64, 1000, 3000]);
+            pinger = Some(std::thread::spawn(move || {
+                let pid = std::process::id() as i32;
+                while !stop.load(std::sync::atomic::Ordering::SeqCst) {
+                    let tid = DUMPER_TID.load(std::sync::atomic::Ordering::SeqCst);
+                    if tid != 0 {
+                        unsafe { libc::syscall(libc::SYS_tgkill, pid, tid, libc::SIGUSR1) };
+                    }
+                    std::thread::sleep(std::time::Duration::from_micros(period));
+                }
+            }));
+        }
         // spinner counters before
         let spin_before: Vec<(i32, u64)> = t.threads.iter().filter(|x| x.spin).map(|x| (x.tid, t.read_u64(x.regs_addr + 384))).collect();
         let o = dump_case("C03", &format!("a{}-{}", seed, i), &t, &cfg, &mut dest, "");
         set_sync(None);
+        pinger_stop.store(true, std::sync::atomic::Ordering::SeqCst);
+        if let Some(h) = pinger {
+            let _ = h.join();
+            unsafe {
+                libc::signal(libc::SIGUSR1, libc::SIG_IGN);
+            }
+        }
         storm_stop.store(true, std::sync::atomic::Ordering::SeqCst);
         if let Some(h) = storm {
             let _ = h.join();
